@@ -708,8 +708,16 @@ impl Scenario for ConcurrentSubmit {
         cx.steps = res.steps;
         cx.probe_n("context_switches", res.switches);
         cx.nontrivial = res.switches >= 1;
+        cx.abandoned = res.abandoned;
         if let Some(v) = res.violation {
             cx.violate(&v.class, &v.site, v.detail);
+            return;
+        }
+        if res.abandoned {
+            // the step cap ended the submit phase by unwinding the threads where they stood (a
+            // queue lock may have been held and is poisoned now): nothing to judge in this run
+            cx.probe("abandoned_at_step_cap");
+            cx.ev("submit phase abandoned at the step cap");
             return;
         }
         let accepted = accepted.lock().unwrap().clone();
